@@ -94,7 +94,7 @@ def finish(res, tier, t0, seed=0):
             kf.append((v, known[v.key]))
         else:
             new.append(v)
-    rdir = os.path.join(VERIF, "reports", prop)
+    rdir = os.path.join(os.environ.get("PV_EVIDENCE_DIR") + "_reports" if os.environ.get("PV_EVIDENCE_DIR") else os.path.join(VERIF, "reports"), prop)
     os.makedirs(rdir, exist_ok=True)
     for fn in os.listdir(rdir):
         try:
@@ -139,8 +139,9 @@ def finish(res, tier, t0, seed=0):
         "wall_s": round(wall, 2),
         "violations": len(new),
     }
-    os.makedirs(os.path.join(VERIF, "evidence"), exist_ok=True)
-    with open(os.path.join(VERIF, "evidence", prop + ".json"), "w") as fh:
+    evdir = os.environ.get("PV_EVIDENCE_DIR") or os.path.join(VERIF, "evidence")
+    os.makedirs(evdir, exist_ok=True)
+    with open(os.path.join(evdir, prop + ".json"), "w") as fh:
         json.dump(ev, fh, indent=1)
     print("%s %s: %d rule instances, %d violation(s), %d known finding(s), %.1fs" % (prop, tier, n_inst, len(new), len(kf), wall))
     return 1 if new else 0
